@@ -99,6 +99,64 @@ def run(chk):
     import c17
     c17.budget_stream(chk, quick, R=R)
     cli_budget_stream(chk, quick, R)
+    assert_directive_stream(chk, quick, R)
+
+
+def assert_directive_stream(chk, quick, R):
+    """`#assert` directives (outside the resolver models): budget sweep on the implementation.  Success at budget N must be
+    reproduced identically at every larger budget, and a program whose assertion is false in the (unique, label values
+    known in advance) final state never assembles, at any budget, under either static setting"""
+    rng = chk.rng.fork("c09-assert")
+    budgets = [1, 2, 3, 4, 6, 10]
+    cases = []
+    for _ in range(120 if quick else 1200):
+        nb = rng.range(0, 4)
+        lines, pos, labels = [], 0, {}
+        static = rng.chance(0.4)          # label-free: converges in one pass with the static optimisation
+        for i in range(nb):
+            if not static and rng.chance(0.5):
+                labels["l%d" % len(labels)] = pos
+                lines.append("l%d:" % (len(labels) - 1))
+            lines.append("#d8 %d" % rng.below(256)); pos += 1
+        holds = rng.chance(0.5)
+        kind = rng.below(3) if labels else rng.below(2)
+        if kind == 0:
+            a, b = rng.below(50), rng.below(50)
+            cond = "%d %s %d" % (a, "<=" if (a <= b) == holds else ">", b)
+        elif kind == 1:
+            at = rng.range(0, len(lines))
+            here = sum(1 for l in lines[:at] if l.startswith("#d8"))
+            cond = "$ %s %d" % ("==" if holds else "!=", here)
+            lines.insert(at, "#assert " + cond); cond = None
+        else:
+            n, v = rng.choice(sorted(labels.items()))
+            cond = "%s %s %d" % (n, "==" if holds else "!=", v)
+        if cond is not None:
+            lines.insert(rng.range(0, len(lines)), "#assert " + cond)
+        cases.append(("\n".join(lines) + "\n", holds, rng.chance(0.5)))
+    ans = R.impl([(t, b, s, True) for (t, holds, s) in cases for b in budgets])
+    nok = 0
+    for i, (t, holds, s) in enumerate(cases):
+        row = [asm_gen.canon_impl(a) for a in ans[i * len(budgets):(i + 1) * len(budgets)]]
+        rep = {"kind": "assert-directive", "program": t, "static_opt": s, "matcher_opt": True, "assertion_holds": holds,
+               "by_budget": {str(b): a[:200] for b, a in zip(budgets, ans[i * len(budgets):(i + 1) * len(budgets)])}}
+        if any(c[0] not in ("OK", "ERR") for c in row):
+            chk.violation("implementation crashed or was inconsistent on a program with an #assert directive", rep)
+            continue
+        oks = [j for j, c in enumerate(row) if c[0] == "OK"]
+        if oks:
+            nok += 1
+            chk.nontriv(t)
+        if oks and not holds:
+            chk.violation("a program whose #assert is false assembles with budget %d" % budgets[oks[0]], dict(rep, budget=budgets[oks[0]]))
+            continue
+        if oks:
+            first = oks[0]
+            bad = [j for j in range(first, len(budgets)) if asm_streams.sig(row[j]) != asm_streams.sig(row[first])]
+            if bad:
+                chk.violation("a program with an #assert directive assembles with budget %d but not identically with the larger budget %d"
+                              % (budgets[first], budgets[bad[0]]), dict(rep, budget=budgets[first]))
+    chk.count("assert_directive_programs", len(cases), assemble_at_some_budget=nok)
 
 
 def cli_budget_stream(chk, quick, R):
